@@ -68,7 +68,7 @@ func opKey(code, doc int) string {
 // observe performs one call on s and returns its canonical result; for
 // Example it also returns the slice handed out, for GetAST two addresses that
 // identify the compiled AST.
-func observe(s *jschema.Schema, code, doc int) (res string, bytes []byte, ident [2]uintptr) {
+func observe(s *jschema.Schema, code int, doc string) (res string, bytes []byte, ident [2]uintptr) {
 	defer func() {
 		if r := recover(); r != nil {
 			res = fmt.Sprintf("PANIC %v", r)
@@ -78,7 +78,7 @@ func observe(s *jschema.Schema, code, doc int) (res string, bytes []byte, ident 
 	case opCheck:
 		return c11.CanonErr(s.Check()), nil, ident
 	case opValidate:
-		return c11.CanonErr(s.Validate(json.New("doc", c11.Docs[doc]))), nil, ident
+		return c11.CanonErr(s.Validate(json.New("doc", doc))), nil, ident
 	case opLen:
 		n, err := s.Len()
 		return fmt.Sprintf("%d %s", n, c11.CanonErr(err)), nil, ident
@@ -212,14 +212,14 @@ func oracle(spec c11.SchemaSpec) want {
 		// each op on its own fresh object as well as in sequence must agree (C11); take the fresh one
 		f := jschema.New(spec.ID, spec.Text)
 		setup(f, spec, nil, 0, nil)
-		res, _, _ := observe(f, code, 0)
+		res, _, _ := observe(f, code, "")
 		w.ops[opKey(code, 0)] = res
-		if seq, _, _ := observe(s, code, 0); seq != res {
+		if seq, _, _ := observe(s, code, ""); seq != res {
 			panic(fmt.Sprintf("c12 oracle: sequential run not history-independent for %s %s: %q vs %q", spec.ID, opKey(code, 0), seq, res))
 		}
 	}
 	for d := range c11.Docs {
-		res, _, _ := observe(s, opValidate, d)
+		res, _, _ := observe(s, opValidate, c11.Docs[d])
 		w.ops[opKey(opValidate, d)] = res
 	}
 	return w
@@ -251,17 +251,30 @@ func (c *collector) stat(s string) {
 	c.mu.Unlock()
 }
 
-// hammer issues n random operations on s and compares with w.
-func hammer(col *collector, r *rand.Rand, s *jschema.Schema, spec c11.SchemaSpec, w want, n int, where string, idents chan<- [2]uintptr) {
+// target: what hammer needs to know about the schema it works on.
+type target struct {
+	id, text string
+	setup    string   // replayable description of the set-up
+	docs     []string // documents for Validate
+	w        want
+}
+
+func specTarget(spec c11.SchemaSpec, w want) target {
+	return target{id: spec.ID, text: spec.Text, setup: describeSetup(spec), docs: c11.Docs, w: w}
+}
+
+// hammer issues n random operations on s and compares with t.w.
+func hammer(col *collector, r *rand.Rand, s *jschema.Schema, t target, n int, where string, idents chan<- [2]uintptr) {
 	var prev []byte
 	prevWant := ""
+	spec, w := t, t.w
 	for i := 0; i < n; i++ {
 		code := []int{opCheck, opValidate, opValidate, opValidate, opLen, opExample, opExample, opAST, opUsed}[r.Intn(9)]
-		doc := r.Intn(len(c11.Docs))
-		got, b, id := observe(s, code, doc)
+		doc := r.Intn(len(t.docs))
+		got, b, id := observe(s, code, t.docs[doc])
 		k := opKey(code, doc)
 		if got != w.ops[k] {
-			col.diff(vh.Diff{Component: "C12-result", Input: fmt.Sprintf("%s; spec %s = %q (set-up %s); call %s%s", where, spec.ID, spec.Text, describeSetup(spec), k, docText(code, doc)),
+			col.diff(vh.Diff{Component: "C12-result", Input: fmt.Sprintf("%s; spec %s = %q (set-up %s); call %s%s", where, spec.id, spec.text, t.setup, k, docText(code, t.docs[doc], doc)),
 				Impl: got, Model: "sequential run on fresh objects: " + w.ops[k]})
 		}
 		col.stat("op_" + opName[code])
@@ -277,7 +290,7 @@ func hammer(col *collector, r *rand.Rand, s *jschema.Schema, spec c11.SchemaSpec
 		// the slice handed out by the previous Example() must still read the same
 		if prev != nil {
 			if now := string(prev); now != prevWant {
-				col.diff(vh.Diff{Component: "C12-result", Input: fmt.Sprintf("%s; spec %s = %q; byte slice returned by an earlier Example() re-read after a later call", where, spec.ID, spec.Text),
+				col.diff(vh.Diff{Component: "C12-result", Input: fmt.Sprintf("%s; spec %s = %q (set-up %s); byte slice returned by an earlier Example() re-read after a later call", where, spec.id, spec.text, t.setup),
 					Impl: fmt.Sprintf("%q", now), Model: fmt.Sprintf("unchanged since the call: %q", prevWant)})
 			}
 			prev = nil
@@ -288,11 +301,11 @@ func hammer(col *collector, r *rand.Rand, s *jschema.Schema, spec c11.SchemaSpec
 	}
 }
 
-func docText(code, doc int) string {
+func docText(code int, text string, doc int) string {
 	if code != opValidate {
 		return ""
 	}
-	return fmt.Sprintf(" with doc%d = %q", doc, c11.Docs[doc])
+	return fmt.Sprintf(" with doc%d = %q", doc, text)
 }
 
 func describeSetup(spec c11.SchemaSpec) string {
@@ -421,7 +434,7 @@ func runRound(col *collector, round int, known bool, wants map[int]want, rxWants
 		go func() {
 			defer wg.Done()
 			<-start
-			hammer(col, gr, S, spec, wants[sIdx], 6+gr.Intn(8), where, idents)
+			hammer(col, gr, S, specTarget(spec, wants[sIdx]), 6+gr.Intn(8), where, idents)
 		}()
 	}
 	// other roots: created, set up (sharing the type / rule objects), compiled and used concurrently
@@ -443,7 +456,7 @@ func runRound(col *collector, round int, known bool, wants map[int]want, rxWants
 				col.diff(vh.Diff{Component: "C12-result", Input: ow + "; set-up of " + osp.ID + ": " + describeSetup(osp),
 					Impl: strings.Join(got, ","), Model: "sequential run on fresh objects: " + strings.Join(wants[oi].setup, ",")})
 			}
-			hammer(col, gr, o, osp, wants[oi], 4+gr.Intn(6), ow, nil)
+			hammer(col, gr, o, specTarget(osp, wants[oi]), 4+gr.Intn(6), ow, nil)
 		}()
 	}
 	// goroutines on the shared regex objects
@@ -509,8 +522,8 @@ func runRound(col *collector, round int, known bool, wants map[int]want, rxWants
 		go func(g int) {
 			defer wg.Done()
 			<-start2
-			a, _, _ := observe(F, opCheck, 0)
-			b, _, id := observe(F, opAST, 0)
+			a, _, _ := observe(F, opCheck, "")
+			b, _, id := observe(F, opAST, "")
 			results[g] = a + " / " + b
 			ids[g] = id
 		}(g)
@@ -544,10 +557,32 @@ func specIDs(is []int) []string {
 	return out
 }
 
-func child(stream string) {
+func child(stream string, onlyRound, repeat int) {
 	res := racekit.NewChildResult()
 	col := &collector{res: res}
 	known := stream == "known"
+	if stream == "nested" || onlyRound >= 0 {
+		// rounds over shared type objects that own types themselves (nested.go)
+		var rounds []int
+		if onlyRound >= 0 {
+			for i := 0; i < repeat; i++ {
+				rounds = append(rounds, onlyRound)
+			}
+		} else {
+			for i, n := 0, nestedRounds(known); i < n; i++ {
+				rounds = append(rounds, i)
+			}
+		}
+		inFlight := nestedInFlight
+		if onlyRound >= 0 {
+			inFlight = 1
+		}
+		nestedChild(col, stream, known, rounds, inFlight)
+		col.mu.Lock()
+		res.Print()
+		col.mu.Unlock()
+		return
+	}
 	wants := map[int]want{}
 	for _, ri := range c11.Roots() {
 		wants[ri] = oracle(c11.Schemas[ri])
@@ -603,23 +638,103 @@ func child(stream string) {
 		col.diff(vh.Diff{Component: "C12-result", Input: fmt.Sprintf("round %d of stream %s (VERIF_SEED=%d)", round, stream, vh.Seed()), Impl: "TIMEOUT",
 			Model: "every call returns"})
 	}
+	if known && finishedOK(finished) {
+		// the allOf variant of the nested rounds belongs to the known class as well
+		var rounds []int
+		for i, n := 0, nestedRounds(true); i < n; i++ {
+			rounds = append(rounds, i)
+		}
+		nestedChild(col, stream, true, rounds, nestedInFlight)
+	}
 	col.mu.Lock()
 	res.Print()
 	col.mu.Unlock()
+}
+
+func finishedOK(finished chan struct{}) bool {
+	select {
+	case <-finished:
+		return true
+	default:
+		return false
+	}
+}
+
+func nestedRounds(known bool) int {
+	if known {
+		return vh.Pick(60, 600)
+	}
+	return vh.Pick(200, 5000)
+}
+
+const soloRepeat = 20
+
+type soloResult struct {
+	keys    map[string]bool // keys of the race reports the round produces alone
+	problem string
+}
+
+// confirmNested replays the candidate rounds (mark ids; at most 6 distinct
+// ones) alone, soloRepeat times each, in child processes of their own.
+func confirmNested(stream string, cands []string) map[string]soloResult {
+	out := map[string]soloResult{}
+	var ids []string
+	for _, c := range cands {
+		var round int
+		if _, err := fmt.Sscanf(c, "nested-round-%d", &round); err != nil {
+			continue
+		}
+		if _, dup := out[c]; !dup && len(ids) < 6 {
+			out[c] = soloResult{}
+			ids = append(ids, c)
+		}
+	}
+	var mu sync.Mutex
+	var wg sync.WaitGroup
+	sem := make(chan struct{}, 3)
+	for _, id := range ids {
+		id := id
+		var round int
+		fmt.Sscanf(id, "nested-round-%d", &round)
+		wg.Add(1)
+		go func() {
+			defer wg.Done()
+			sem <- struct{}{}
+			defer func() { <-sem }()
+			_, races, problem := racekit.RunChild([]string{"c12-concurrent", "--child", stream, "--round", fmt.Sprint(round), "--repeat", fmt.Sprint(soloRepeat)}, nil, 120*time.Second)
+			r := soloResult{keys: map[string]bool{}, problem: problem}
+			for _, rc := range races {
+				r.keys[rc.Key] = true
+			}
+			mu.Lock()
+			out[id] = r
+			mu.Unlock()
+		}()
+	}
+	wg.Wait()
+	return out
 }
 
 // Run is the command c12-concurrent (cmd/vhrace).  Args: --with-known also
 // runs the K-C12-allof stream (its own child process).
 func Run(args []string) {
 	withKnown := false
+	childStream, onlyRound, repeat := "", -1, 50
 	for i, a := range args {
 		switch a {
 		case "--with-known":
 			withKnown = true
 		case "--child":
-			child(args[i+1])
-			return
+			childStream = args[i+1]
+		case "--round": // with --child nested|known: only this nested round, --repeat times (replay of a report)
+			fmt.Sscan(args[i+1], &onlyRound)
+		case "--repeat":
+			fmt.Sscan(args[i+1], &repeat)
 		}
+	}
+	if childStream != "" {
+		child(childStream, onlyRound, repeat)
+		return
 	}
 	rep := vh.NewReport("c12-concurrent",
 		"rounds: one root schema (pool of x/c11: 33 root texts, valid and invalid, with types / enum rules / regex types) fully set up, then "+
@@ -627,34 +742,88 @@ func Run(args []string) {
 			"first compile) while 1..6 goroutines build, compile and use other roots that add the SAME type and rule objects, and 2..6 goroutines "+
 			"call Example/Pattern/Len/Check on shared regex objects; random Gosched; every result compared with a sequential run on fresh objects; "+
 			"plus G goroutines racing to the first Check of a fresh schema; child process under the race detector. Non-trivial = the shared root "+
-			"has added types/rules or passes Check")
+			"has added types/rules or passes Check. Stream nested (second child): random forests of user-type objects that own types themselves "+
+			"(T.AddType(U), U.AddType(V): chains of depth 0..3, 1..2 owned types each, some owned twice; or rule-sets, or / key shortcuts, type / "+
+			"enum rules, additionalProperties, self references; no allOf), built once and added to 2..6 roots that are set up, compiled for the "+
+			"first time and used by 1..4 goroutines each (2..24 per round), 3 rounds at a time; oracle = each root over fresh objects, sequentially; "+
+			"race reports are attributed to rounds by stderr marks and confirmed by replaying the round alone. Non-trivial there = an object "+
+			"shared by >= 2 roots owns a type that owns (named or anonymous) types and >= 2 roots pass Check")
 	if racekit.Enabled {
 		rep.Extra["race_detector"] = "on"
 	} else {
 		rep.Extra["race_detector"] = "OFF: binary built without -race (build cmd/vhrace with CGO_ENABLED=1 go build -race)"
 		rep.Stat("race_detector_off")
 	}
-	runStream := func(stream, class string) {
-		res, races, problem := racekit.RunChild([]string{"c12-concurrent", "--child", stream}, nil, time.Duration(vh.Pick(150, 1200))*time.Second)
-		if res != nil {
-			res.Merge(rep, class)
+	type streamOut struct {
+		res       *racekit.ChildResult
+		races     []racekit.Race
+		problem   string
+		openAtEnd []string
+	}
+	runStream := func(stream string) streamOut {
+		var o streamOut
+		o.res, o.races, o.problem, o.openAtEnd = racekit.RunChildMarked([]string{"c12-concurrent", "--child", stream}, nil, time.Duration(vh.Pick(150, 1200))*time.Second)
+		return o
+	}
+	merge := func(stream, class string, o streamOut) {
+		if o.res != nil {
+			o.res.Merge(rep, class)
 		}
-		if problem != "" {
-			rep.AddDiff(vh.Diff{Component: "C12-result", Input: fmt.Sprintf("child run `vhrace c12-concurrent --child %s` with VERIF_SEED=%d", stream, vh.Seed()),
-				Impl: problem, Model: "the concurrent scenario terminates normally", Class: class})
+		// the nested rounds bracket themselves with marks: a report carries the (few) rounds that were running when
+		// it was printed; these are replayed alone to name the one that produces it
+		var cands []string
+		for _, r := range o.races {
+			cands = append(cands, r.Marks...)
 		}
-		for _, r := range races {
-			rep.AddDiff(vh.Diff{Component: "C12-race", Input: fmt.Sprintf("stream %s of vhrace c12-concurrent, VERIF_SEED=%d (report seen %d times)", stream, vh.Seed(), r.Count),
+		if o.problem != "" {
+			cands = append(cands, o.openAtEnd...)
+		}
+		solo := confirmNested(stream, cands)
+		scenario := func(key string, marks []string) string {
+			if len(marks) == 0 {
+				return ""
+			}
+			for _, m := range marks {
+				if c, ok := solo[m]; ok && key != "" && c.keys[key] {
+					return fmt.Sprintf("; REPRODUCED by this round alone (%d repetitions): %s", soloRepeat, describeNestedMark(m, stream == "known"))
+				}
+			}
+			for _, m := range marks {
+				if c, ok := solo[m]; ok && (len(c.keys) > 0 || c.problem != "") {
+					return fmt.Sprintf("; printed while this round was running, which alone (%d repetitions) gives %d distinct race report(s)%s: %s", soloRepeat,
+						len(c.keys), map[bool]string{true: " and ends abnormally", false: ""}[c.problem != ""], describeNestedMark(m, stream == "known"))
+				}
+			}
+			var sb []string
+			for _, m := range marks {
+				sb = append(sb, describeNestedMark(m, stream == "known"))
+			}
+			return "; printed while these rounds were running (none reproduces it alone): " + strings.Join(sb, " AND ")
+		}
+		if o.problem != "" {
+			rep.AddDiff(vh.Diff{Component: "C12-result", Input: fmt.Sprintf("child run `vhrace c12-concurrent --child %s` with VERIF_SEED=%d%s", stream, vh.Seed(), scenario("", o.openAtEnd)),
+				Impl: o.problem, Model: "the concurrent scenario terminates normally", Class: class})
+		}
+		for _, r := range o.races {
+			rep.AddDiff(vh.Diff{Component: "C12-race", Input: fmt.Sprintf("stream %s of vhrace c12-concurrent, VERIF_SEED=%d (report seen %d times)%s", stream, vh.Seed(), r.Count, scenario(r.Key, r.Marks)),
 				Impl: "DATA RACE: " + r.Text, Model: "no data race", Class: class})
 		}
-		rep.Stats["distinct_race_reports_"+stream] = len(races)
-		if res != nil {
-			rep.Stats["result_diffs_"+stream] = res.NDiffs
+		rep.Stats["distinct_race_reports_"+stream] = len(o.races)
+		if o.res != nil {
+			rep.Stats["result_diffs_"+stream] = o.res.NDiffs
 		}
 	}
-	runStream("main", "")
+	// the two default streams side by side (two child processes)
+	var mainOut, nestedOut streamOut
+	var swg sync.WaitGroup
+	swg.Add(2)
+	go func() { defer swg.Done(); mainOut = runStream("main") }()
+	go func() { defer swg.Done(); nestedOut = runStream("nested") }()
+	swg.Wait()
+	merge("main", "", mainOut)
+	merge("nested", "", nestedOut)
 	if withKnown {
-		runStream("known", "K-C12-allof")
+		merge("known", "K-C12-allof", runStream("known"))
 	}
 	rep.Extra["known_stream"] = fmt.Sprint(withKnown)
 	rep.Finish()
